@@ -204,6 +204,22 @@ def r4(rr, repo):
     za = anchors(repo)
     loops = [n for n in walk_scope(za.R_recv) if isinstance(n, ast.For) and any(isinstance(s, ast.Assign) and any(isinstance(t, ast.Subscript) and U(t.value) == 'data' for t in s.targets) for s in ast.walk(n))]
     loops = [l for l in loops if not any(q.inside(l, m) for m in loops)]
+    # a known-bad way of applying the subscription's topic map: renaming in place while walking the MAP (`d[dst] = d.pop(src)` for
+    # src, dst in topic_map.items()) applies a second mapping to an already renamed frame whenever one mapping's destination is
+    # another mapping's source ("a>b;b>c", "a>b;b>a"): a frame is delivered under a name its subscription does not map it to, another is lost
+    for n in walk_scope(za.R_recv):
+        if isinstance(n, ast.For) and 'topic_map' in U(n.iter) and isinstance(n.target, ast.Tuple) and len(n.target.elts) == 2 and all(isinstance(e, ast.Name) for e in n.target.elts):
+            src, dst = n.target.elts[0].id, n.target.elts[1].id
+            for s_ in ast.walk(n):
+                if isinstance(s_, ast.Assign) and len(s_.targets) == 1 and isinstance(s_.targets[0], ast.Subscript) and U(s_.targets[0].slice) == dst:
+                    d = U(s_.targets[0].value)
+                    v = s_.value
+                    reads_same = (isinstance(v, ast.Call) and U(v.func) == f'{d}.pop' and v.args and U(v.args[0]) == src) or (isinstance(v, ast.Subscript) and U(v.value) == d and U(v.slice) == src)
+                    if reads_same:
+                        rr.violated('the topic map is applied by renaming in place while walking the map: mappings whose destination is another mapping\'s source cascade (a>b;b>c delivers a as c and loses b)',
+                                    za.mod, s_, witness=U(s_), key='rename-cascade')
+    if not loops and any(o.status == 'VIOLATED' for o in rr.obligations):
+        return
     rr.floor('assembly loops in recv()', len(loops), 1, za.mod, za.R_recv)
     for loop in loops:
         ev = za.ev(unroll_for=1)
